@@ -83,8 +83,12 @@ def _code_literal(text: str) -> str:
 
 
 def param_to_str(ident: str) -> str:
+    # After `$` the lexer continues a bare name only over ASCII digits,
+    # `_` and alphabetic characters (not over other numeric characters).
+    force = bool(ident) and not all(
+        c == '_' or c.isalpha() or c in '0123456789' for c in ident)
     return '$' + edgeql_quote.quote_ident(
-        ident, allow_reserved=True, allow_num=True)
+        ident, force=force, allow_reserved=True, allow_num=True)
 
 
 def ident_to_str(ident: str, allow_num: bool=False) -> str:
